@@ -21,7 +21,7 @@ META = {
     "note": "A-float; numpy models for boolean-mask/fancy indexing, nanmin/nanargmin (first minimum among non-NaN), vstack/transpose, sorted(key) (stable permutation), "
             "linspace(0,n-1,n).astype(int) = identity are assumed (A-ext) and exercised by the bounded runs; counting lemmas for masks assumed. File round trip between R1 and R2 "
             "(savetxt/cat/genfromtxt) is outside the regions (A-shell, bounded).",
-    "technique": "contract-based deductive verification of code regions (AST->VC->SMT) + bounded stand-in on synthetic tables",
+    "technique": "contract-based deductive verification of code regions (AST->VC->SMT) + structural obligations on the commands that join the per-rank files + bounded stand-in on synthetic tables (1-16 ranks)",
 }
 CHECKER = "./bin/check C06 (pyvc on esr/fitting/combine_DL.py::main regions R1, R2, R3 -> z3)"
 
